@@ -21,6 +21,18 @@ import inspect
 
 def augment_exception_message_and_reraise(exception, message):
   """Reraises `exception`, appending `message` to its string representation."""
+  try:
+    proxy = _make_exception_proxy(exception, message)
+  except Exception:  # pylint: disable=broad-except
+    # No stand-in can be built for this class (its `__new__`, `__init_subclass__`
+    # or metaclass refuses): the original exception, with its message as it is,
+    # is better than whatever the failed construction raised.
+    proxy = exception
+  raise proxy.with_traceback(exception.__traceback__)
+
+
+def _make_exception_proxy(exception, message):
+  """Returns a stand-in for `exception` whose `str()` has `message` appended."""
 
   class ExceptionProxy(type(exception)):
     """Acts as a proxy for an exception with an augmented message."""
@@ -67,7 +79,7 @@ def augment_exception_message_and_reraise(exception, message):
   # class-level attribute before `__getattr__` is consulted).
   proxy.__dict__.update(getattr(exception, '__dict__', {}))
   ExceptionProxy.__qualname__ = type(exception).__qualname__
-  raise proxy.with_traceback(exception.__traceback__)
+  return proxy
 
 
 def _format_location(location):
